@@ -319,6 +319,27 @@ async def run_batch(part, seqs, prop, refused_check=True):
                 if obs != exp:
                     part.violation('correspondence', f'{prop}: config tls={tls} local={local}: after {list(names)} the connection is observed as {obs}, the model state '
                                    f'{mod[-1][1:4] if mod else None} predicts {exp}', case, signature='conn-state')
+            # the property's own statement about SELECT/EXAMINE, CLOSE and LOGOUT, judged on the real answers alone
+            if names and real and obs is not None and obs != ('closed',):
+                lastn, lastr = names[-1], real[-1]
+                if lastn.startswith(('select-', 'examine-')):
+                    if lastr == 'NO' and obs[1] is not None:
+                        part.violation('monitor', f'{prop}: {lastn} failed with NO but a mailbox is still selected afterwards (first message has {obs[1]} octets, read-only={obs[2]}); '
+                                       f'sequence {list(names)}', case, signature='failed-select-keeps-selection')
+                    if lastr == 'OK':
+                        boxname = lastn.split('-', 1)[1]
+                        want_name = {'inbox': 'INBOX', 'sent': 'Sent', 'trash': 'Trash'}.get(boxname)
+                        u = mod[-1][1] if mod else '-'
+                        if want_name and u != '-':
+                            b = BOXES[int(u)].get(want_name)
+                            if b and (obs[1] != sizes.get((int(u), b[0]), -1) or obs[2] != (lastn.startswith('examine') or b[1])):
+                                part.violation('monitor', f'{prop}: {lastn} answered OK but the selected mailbox is observed as (first message {obs[1]} octets, read-only={obs[2]}), '
+                                               f'expected {want_name} ({sizes.get((int(u), b[0]))} octets, read-only={lastn.startswith("examine") or b[1]}); sequence {list(names)}', case,
+                                               signature='select-selects-other')
+                if lastn == 'close' and lastr == 'OK' and obs[1] is not None:
+                    part.violation('monitor', f'{prop}: CLOSE answered OK but a mailbox is still selected; sequence {list(names)}', case, signature='close-keeps-selection')
+            if names and real and real[-1] not in ('CLOSED',) and names[-1] == 'logout' and real[-1] != 'BYE+OK':
+                part.violation('monitor', f'{prop}: LOGOUT answered {real[-1]}, not BYE then OK; sequence {list(names)}', case, signature='logout')
             # refused commands have no effect
             if refused_check and ok and len(names) <= 6 and mod and mod[-1][3] == 'open':
                 refused = [j for j, mm in enumerate(mod) if mm[0] == 'BAD' and not mm[4].startswith(('invalid', 'auth', 'idle'))]
